@@ -124,7 +124,8 @@ type c09Inst struct {
 	origDump string
 	// after an EnterNested step the history continues on the handle AddNestedTable returned; the table the
 	// parent hands out for that cell must stay the very same table
-	parent *document.Table
+	parent     *document.Table
+	nestedInit string
 }
 
 type c09Cell struct {
@@ -667,10 +668,12 @@ func (i *c09Inst) checkNestedHandle(kind string) []rep.Violation {
 	}
 	a, _ := json.Marshal(&held[len(held)-1])
 	b, _ := json.Marshal(i.t)
-	if string(a) != string(b) {
-		return []rep.Violation{{Sig: "W8-nested-handle|detached|after=" + kind, Clause: "W8", What: fmt.Sprintf("after %s on the handle AddNestedTable returned, the nested table the parent cell holds differs from the handle: the handle is not the table in the document", kind)}}
+	if string(a) == string(b) || string(a) == i.nestedInit {
+		// the handle is the table in the document - or it is a fully separate table and the one in the
+		// document is exactly as it was created (the statement does not promise a live handle)
+		return nil
 	}
-	return nil
+	return []rep.Violation{{Sig: "W8-nested-handle|half-shared|after=" + kind, Clause: "W8", What: fmt.Sprintf("after %s on the handle AddNestedTable returned, the nested table the parent cell holds is neither the handle's table nor the table as it was created: the two share part of their state", kind)}}
 }
 
 func (i *c09Inst) apply0(op int) (string, []rep.Violation) {
@@ -685,6 +688,10 @@ func (i *c09Inst) apply0(op int) (string, []rep.Violation) {
 			return "error", nil // the call itself is judged by the AddNestedTable operation
 		}
 		i.parent, i.t = i.t, h
+		if held, e := i.parent.GetNestedTables(0, 0); e == nil && len(held) > 0 {
+			d, _ := json.Marshal(&held[len(held)-1])
+			i.nestedInit = string(d)
+		}
 		i.lastNT = true
 		return "entered", nil
 	}
@@ -1124,8 +1131,16 @@ func (i *c09Inst) Deep() []rep.Violation {
 	if i.t == nil {
 		return nil
 	}
-	class := c09Snapshot(i.t).class()
-	mem := c09Snapshot(i.t).invariants()
+	// what is saved is judged against the table the DOCUMENT holds (after EnterNested: the nested table of the
+	// parent's first cell, which is the handle's table unless the handle is a separate object)
+	inDoc := i.t
+	if i.parent != nil {
+		if held, e := i.parent.GetNestedTables(0, 0); e == nil && len(held) > 0 {
+			inDoc = &held[len(held)-1]
+		}
+	}
+	class := c09Snapshot(inDoc).class()
+	mem := c09Snapshot(inDoc).invariants()
 	pkg, _, errS := saveRead(i.doc)
 	if errS != "" {
 		return []rep.Violation{{Sig: "save-failed|" + class, Clause: "save", What: errS}}
@@ -1166,7 +1181,7 @@ func (i *c09Inst) Deep() []rep.Violation {
 		}
 	}
 	// the saved table has the same shape as the in-memory one
-	ms := c09Snapshot(i.t)
+	ms := c09Snapshot(inDoc)
 	if len(ms.Rows) != len(s.Rows) {
 		out = append(out, rep.Violation{Sig: "saved-shape|" + class, Clause: "save", What: fmt.Sprintf("%d rows in memory, %d saved", len(ms.Rows), len(s.Rows))})
 	} else {
